@@ -762,6 +762,34 @@ def systematic():
     return cases
 
 
+def worsening(rng, count):
+    """solve, make the LP 'worse' for the objective (raise the costs of a covering LP, tighten its sides, or both), drop the
+    basis and solve again on the SAME object: the second solve starts without a basis, so presolve runs a second time in an
+    object that has already presolved a better LP - whatever the simplifier kept from the first run must not be used.  The
+    from-scratch solver of the model's LP is the reference."""
+    d = dy
+    cases = []
+    for _ in range(count):
+        n, m = rng.randint(2, 5), rng.randint(2, 4)
+        cols = [(rng.randint(1, 3), 0, rng.choice([INF, INF, 4, 6])) for _ in range(n)]
+        rows = []
+        for i in range(m):
+            js = rng.sample(range(n), rng.randint(1, min(3, n)))
+            rows.append((rng.randint(1, 3), [(j, rng.choice([1, 1, 2])) for j in sorted(js)]))
+        base = ["ACS %d %s" % (n, " ".join("%s %s %s 0" % (d(c), d(lo), d(up)) for (c, lo, up) in cols)),
+                "ARS %d %s" % (m, " ".join("%s %s %d %s" % (d(b), d(INF), len(es), " ".join("%d %s" % (j, d(a)) for j, a in es)) for (b, es) in rows))]
+        k = rng.choice([2, 3, 10])
+        worse = []
+        w = rng.randrange(3)
+        if w in (0, 2):
+            worse.append("OV %d %s" % (n, " ".join(d(c * k) for (c, lo, up) in cols)))
+        if w in (1, 2):
+            worse.append("LV %d %s" % (m, " ".join(d(b * rng.choice([2, 2, 3])) for (b, es) in rows)))
+        sd = {"scaler": rng.choice([0, 2, 2, 3]), "persist": rng.randrange(2), "simplifier": rng.choice([1, 1, 3]), "rep": rng.randrange(3), "sense": -1}
+        cases.append({"set": sd, "ops": base + ["OPT"] + worse + ["CB", "OPT"] + (["CB", "OPT"] if rng.random() < 0.3 else []), "family": "worsening"})
+    return cases
+
+
 def main():
     ck = vlib.Check("C06", "proof")
     proved = ck.prove()
@@ -791,6 +819,7 @@ def main():
                     c = {"set": c["set"], "ops": c["ops"], "family": "corpus:" + f}
                     cases.append(c)
         cases += systematic()
+        cases += worsening(ck.rng, 60 if ck.tier == "quick" else 600)
         for c in cases:
             ck.count("family:" + c["family"].split(":")[0])
         ncases, nops = (2000, 25) if ck.tier == "quick" else (30000, 80)
